@@ -60,7 +60,7 @@
 (* Timestamps.  The n-th Record gets ts = 2n.  Odd numbers are the         *)
 (* instants between two entries (ts +- 1 ns in the real log), so that      *)
 (* older_than can take "every stored ts +- 1".  0 means "parameter         *)
-(* absent"; negative numbers are out-of-range values (see OlderBound).     *)
+(* absent"; negative numbers are out-of-range values (see OlderOK).        *)
 (***************************************************************************)
 EXTENDS Integers, Sequences, FiniteSets, TLC, Json, SequencesExt
 
@@ -177,9 +177,10 @@ StatusMatches(s, e) == e.reason \in StatusTable[s]
 
 Huge == 1000000      \* stands for the largest value the parameter type admits (2^63 - 1)
 
-(* A search request.  older: 0 = absent; limit, offset: integers           *)
-(* (limitAbsent / offsetAbsent say the parameter was not sent: defaults    *)
-(* 500 and 0).                                                             *)
+(* A search request is a record [older, limit, offset, term, status].       *)
+(* older: 0 = parameter absent; term/status "none" = parameter absent;      *)
+(* limit = DefaultLimit is what the server assumes when limit is not sent   *)
+(* (the harness then omits the parameter).                                  *)
 DefaultLimit == 500
 Min2(a, b) == IF a < b THEN a ELSE b
 
